@@ -81,6 +81,9 @@ def cases(draw):
         "impl": draw(st.sampled_from([None, "cotengra", "autoray"])),
         "aseed": draw(st.integers(0, 999)),
         "check_zero": check_zero,
+        # the same tree object is first used once WITHOUT check_zero (on arrays
+        # that have no zeros): options given later must still take effect
+        "warm_first": draw(st.booleans()),
         "zero_planes": [list(z) for z in zero_planes],
         # different decades for the different values of one sliced label (on
         # one tensor carrying it): the slices differ by up to 200 decades
@@ -96,7 +99,7 @@ def strategy(tier, sub=None):
 
 
 def budget(tier, sub=None):
-    return {"examples": 6400 if tier == "quick" else 250000, "shards": 16}
+    return {"examples": 16000 if tier == "quick" else 320000, "shards": 16}
 
 
 def run_case(spec, sub=None):
@@ -175,6 +178,11 @@ def run_case(spec, sub=None):
         k2 = dict(kw, prefer_einsum=spec["prefer_einsum"])
         if spec["impl"]:
             k2["implementation"] = spec["impl"]
+        if spec.get("warm_first"):
+            warm = [np.abs(a) + 1 for a in arrays]
+            kw_ = {k_: v_ for k_, v_ in k2.items() if k_ != "check_zero"}
+            guarded(tree.contract, warm, **kw_)
+            cls.append("tree_used_before")
         if check_zero:
             k2["check_zero"] = True
         ok, res = guarded(tree.contract, arrays, **k2)
